@@ -84,6 +84,7 @@ class RowDist(RecDist):
 
 
 POISON = T(('app', 'POISON', (), ()))
+KNOWN_ZTI = 'zero-times-infinite-factor'
 
 
 # ---- specifications of the history modes (pure functions of the spec, shared by generator and driver) ----------
@@ -218,8 +219,22 @@ class C08(PropCheck):
             'a malformed share that is not); the real add_pdf_nodes result and the symbolic value of _evaluate_pdf/logpdf are compared '
             'with the Coq model and with the product/sum specification; (b) numeric: scipy priors (uniform/norm/expon/beta, constant or '
             'parameter-valued arguments), pdf/logpdf/rvs/gradient_logpdf against scipy evaluated directly at points inside, outside and '
-            'on the boundary of the support, scalar/vector/matrix shaped inputs; non-trivial = at least two requested parameters or a '
-            'parameter-valued argument; distinct by (model, subset, order, point)')
+            'on the boundary of the support, scalar/vector/matrix shaped inputs; (c) histories, symbolic: one live model object, '
+            'row-wise recording distributions (each with its own identity), a script of edits through the public API (become on a prior: '
+            'other distribution object / other, reordered or fewer arguments; become on a constant; a new prior; removal of a leaf prior), '
+            'ModelPrior objects built before and after the edits (mostly the previous request again, also the default request and '
+            'several objects alive at once) and interleaved _evaluate_pdf calls: fresh points, the previous bytes in another shape '
+            '(scalar / (dim,) / (1,dim) / (n,dim) / (n,) / (n,1)), exact repeats, float64/int64/float32/list/Fortran/strided inputs, odd '
+            'shapes (k*dim vector, 3-d, wrong size), returned arrays overwritten by the caller; every answer (shape and per-row terms) is '
+            'compared in Coq with the model evaluated from the graph introspected when the object was built, and with the product/sum '
+            'specification; the last object after an edit is shadowed by one built from a freshly constructed equivalent model; (d) '
+            'histories, numeric: scipy priors, become/add edits on the live model (incl. supports moved far away), pdf/logpdf/'
+            'gradient_logpdf/rvs calls on one object with byte-identical points in other shapes, repeats, in-place mutation of returned '
+            'arrays and of the handed-over buffer; each answer must have the shape the input form demands, equal scipy evaluated on the '
+            'edited specification, be bit-identical to a never-used ModelPrior of a copy of the model, and equal a ModelPrior of a freshly '
+            'built equivalent model; draws have positive density under the edited specification; non-trivial = at least two requested '
+            'parameters or a parameter-valued argument, histories with an edit or at least two calls; distinct by (model, subset, order, '
+            'point / script)')
     trusted = ('scipy.stats densities as oracles for the numeric comparison', 'finite-difference accuracy is not proved (stencil identity is checked exactly)')
 
     def generate(self):
@@ -299,6 +314,55 @@ class C08(PropCheck):
         return dict(mode='symbolic', impl=impl_j, coq='(Single %s)' % coq, problems=[])
 
     # ---- numeric -----------------------------------------------------------------------------------
+    def _close(self, a, b, tol=1e-9):
+        """a against b: same shape, same infinities, relative tolerance; a nan never agrees with anything"""
+        a, b = np.asarray(a, dtype=float), np.asarray(b, dtype=float)
+        if a.shape != b.shape:
+            return False
+        same_inf = (np.isinf(a) & np.isinf(b) & (np.sign(a) == np.sign(b)))
+        with np.errstate(invalid='ignore'):
+            return bool(np.all(same_inf | (np.abs(a - b) <= tol * np.maximum(1.0, np.abs(b)))))
+
+    @staticmethod
+    def _expected(params, order, x, log):
+        """The joint (log) density at the point x (dict name -> float) as the property states it: zero (minus infinity) as
+        soon as SOME conditional density is zero, whatever the other factors are (also +inf); otherwise the product (sum of
+        logs) of the scipy conditional densities.  Second component: the point has the exotic shape {some factor zero and
+        some other factor +inf}, where a plain IEEE product / sum is nan."""
+        byname = {p['name']: p for p in params}
+        fs = []
+        for nm in order:
+            p = byname[nm]
+            args = [x[a] if isinstance(a, str) else a for a in p['args']]
+            d = getattr(ss, p['dist'])
+            fs.append(d.logpdf(x[nm], *args) if log else d.pdf(x[nm], *args))
+        zero = [bool(np.isneginf(f)) if log else bool(f == 0) for f in fs]
+        if any(zero):
+            return (-np.inf if log else 0.0), any(bool(np.isposinf(f)) for f in fs)
+        tot = 0.0 if log else 1.0
+        for f in fs:
+            tot = tot + f if log else tot * f
+        return tot, False
+
+    def _expected_rows(self, params, order, pts, log):
+        with np.errstate(all='ignore'):
+            ev = [self._expected(params, order, dict(zip(order, row)), log) for row in pts]
+        return np.array([e[0] for e in ev], dtype=float), np.array([e[1] for e in ev], dtype=bool)
+
+    def _against_oracle(self, got, exp, exotic, tol=1e-9):
+        """(got agrees with exp everywhere outside the known shape, the known shape occurred) where the known shape is: the
+        implementation answers nan at a point with a zero factor and a +inf factor (finding zero-times-infinite-factor)"""
+        a, b = np.asarray(got, dtype=float), np.asarray(exp, dtype=float)
+        if a.shape != b.shape:
+            return False, False
+        known = np.broadcast_to(np.asarray(exotic, dtype=bool), b.shape) & np.isnan(a)
+        same_inf = (np.isinf(a) & np.isinf(b) & (np.sign(a) == np.sign(b)))
+        with np.errstate(invalid='ignore'):
+            good = same_inf | (np.abs(a - b) <= tol * np.maximum(1.0, np.abs(b)))
+        if np.any(known):
+            self.bump('numeric:zero-times-infinite-factor')
+        return bool(np.all(good | known)), bool(np.any(known))
+
     def _gen_numeric(self, r):
         k = r.randint(1, 4)
         params = []
@@ -360,12 +424,7 @@ class C08(PropCheck):
         byname = {p['name']: p for p in params}
 
         def close(a, b, tol=1e-9):
-            a, b = np.asarray(a, dtype=float), np.asarray(b, dtype=float)
-            if a.shape != b.shape:
-                return False
-            same_inf = (np.isinf(a) & np.isinf(b) & (np.sign(a) == np.sign(b)))
-            with np.errstate(invalid='ignore'):
-                return bool(np.all(same_inf | (np.abs(a - b) <= tol * np.maximum(1.0, np.abs(b)))))
+            return self._close(a, b, tol)
 
         # draws have positive density; shapes of rvs
         draws = prior.rvs(size=5, random_state=rs)
@@ -400,18 +459,23 @@ class C08(PropCheck):
                     row[j] = 0.0 if rs.rand() < 0.5 else 1.0
             pts.append(row)
         pts = np.array(pts)
-        exp_pdf = np.array([self._direct(params, order, dict(zip(order, row)), False) for row in pts])
-        exp_log = np.array([self._direct(params, order, dict(zip(order, row)), True) for row in pts])
+        exp_pdf, ex_pdf = self._expected_rows(params, order, pts, False)
+        exp_log, ex_log = self._expected_rows(params, order, pts, True)
         with np.errstate(all='ignore'):
             got_pdf = np.asarray(prior.pdf(pts if dim > 1 else pts[:, 0]))
             got_log = np.asarray(prior.logpdf(pts if dim > 1 else pts[:, 0]))
-        if not close(got_pdf, exp_pdf):
+        okp, knownp = self._against_oracle(got_pdf, exp_pdf, ex_pdf)
+        okl, knownl = self._against_oracle(got_log, exp_log, ex_log)
+        if not okp:
             problems.append('pdf %r != product of conditional densities %r at %r (order %r)' % (got_pdf.tolist(), exp_pdf.tolist(), pts.tolist(), order))
-        if not close(got_log, exp_log):
+        if not okl:
             problems.append('logpdf %r != sum of conditional log densities %r' % (got_log.tolist(), exp_log.tolist()))
-        if got_pdf.shape == exp_pdf.shape and np.any((got_pdf == 0) != (exp_pdf == 0)):
+        if knownp or knownl:
+            problems.append((KNOWN_ZTI, 'pdf %r / logpdf %r at %r (order %r): nan where one conditional density is zero and another is '
+                             '+inf; the property asks for %r / %r' % (got_pdf.tolist(), got_log.tolist(), pts.tolist(), order, exp_pdf.tolist(), exp_log.tolist())))
+        if got_pdf.shape == exp_pdf.shape and np.any(((got_pdf == 0) != (exp_pdf == 0)) & ~(ex_pdf & np.isnan(got_pdf))):
             problems.append('pdf zero pattern differs from the factors: %r vs %r' % (got_pdf.tolist(), exp_pdf.tolist()))
-        if got_log.shape == exp_log.shape and np.any(np.isneginf(got_log) != np.isneginf(exp_log)):
+        if got_log.shape == exp_log.shape and np.any((np.isneginf(got_log) != np.isneginf(exp_log)) & ~(ex_log & np.isnan(got_log))):
             problems.append('logpdf -inf pattern differs: %r vs %r' % (got_log.tolist(), exp_log.tolist()))
         # shapes: a single point
         with np.errstate(all='ignore'):
@@ -420,14 +484,14 @@ class C08(PropCheck):
             p2 = prior.pdf(pts[:1] if dim > 1 else pts[:1, :])
         if np.ndim(p0) != 0 or np.ndim(l0) != 0:
             problems.append('single point gives pdf of shape %r / logpdf of shape %r' % (np.shape(p0), np.shape(l0)))
-        elif not (close(p0, exp_pdf[0]) and close(l0, exp_log[0])):
+        elif not (self._against_oracle(p0, exp_pdf[0], ex_pdf[0])[0] and self._against_oracle(l0, exp_log[0], ex_log[0])[0]):
             problems.append('single point value %r / %r differs from %r / %r' % (p0, l0, exp_pdf[0], exp_log[0]))
         if np.shape(p2) != (1,):
             problems.append('2-d input with one row gives shape %r' % (np.shape(p2),))
         # gradient: equals the central-difference stencil of its own logpdf, zero when the stencil leaves the support,
         # and agrees with the analytic derivative at interior points
         h = 1e-5
-        for row in pts[:2]:
+        for ri, row in enumerate(pts[:2]):
             with np.errstate(all='ignore'):
                 g = np.asarray(prior.gradient_logpdf(row if dim > 1 else row[0]))
                 lp = [[prior.logpdf(row + s * h * np.eye(dim)[j]) if dim > 1 else prior.logpdf(row[0] + s * h) for j in range(dim)] for s in (-1, 1)]
@@ -437,7 +501,9 @@ class C08(PropCheck):
                 problems.append('gradient_logpdf shape %r for dim %d' % (np.shape(g), dim))
                 continue
             g = np.asarray(g, dtype=float).reshape(-1)
-            if np.any(np.isneginf(stencil_vals)) or np.isneginf(centre):
+            if np.isnan(centre) and ex_log[ri]:
+                self.bump('numeric:gradient-at-zero-times-infinite-factor')      # reported above under its own key; no log density to differentiate
+            elif np.any(np.isneginf(stencil_vals)) or np.isneginf(centre):
                 if not np.all(g == 0):
                     problems.append('gradient %r is not zero although the stencil leaves the support' % g.tolist())
             else:
@@ -474,7 +540,7 @@ class C08(PropCheck):
                 self.bump('hist:same-bytes-other-shape')
             else:
                 odd = r.random() < 0.1
-                n = r.randint(1, 3)
+                n = 1 if r.random() < 0.4 else r.randint(2, 3)
                 if odd:
                     shape = r.choice([[2 * dim], [n, 1, dim], [dim + 1], []] if dim > 1 else [[n, 1, 1], [1, n]])
                     self.bump('hist:odd-shape')
@@ -687,7 +753,7 @@ class C08(PropCheck):
         for j in range(ncalls):
             kind = r.choice(['pdf', 'pdf', 'logpdf', 'logpdf', 'grad', 'rvs'])
             u = r.random()
-            c = dict(kind=kind, seed=r.randrange(2 ** 31), pick=r.random(), n=r.randint(1, 4),
+            c = dict(kind=kind, seed=r.randrange(2 ** 31), pick=r.random(), n=(1 if r.random() < 0.45 else r.randint(2, 4)),
                      where=r.choice(['inside', 'inside', 'outside', 'boundary']),
                      container=r.choice(['array', 'array', 'list', 'fortran', 'strided']),
                      mutate_result=r.random() < 0.5, scribble_input=r.random() < 0.3,
@@ -799,12 +865,7 @@ class C08(PropCheck):
             return a.shape == b.shape and a.dtype == b.dtype and bool(np.array_equal(a, b, equal_nan=True))
 
         def close(a, b, tol=1e-9):
-            a, b = np.asarray(a, dtype=float), np.asarray(b, dtype=float)
-            if a.shape != b.shape:
-                return False
-            same_inf = (np.isinf(a) & np.isinf(b) & (np.sign(a) == np.sign(b)))
-            with np.errstate(invalid='ignore'):
-                return bool(np.all(same_inf | (np.abs(a - b) <= tol * np.maximum(1.0, np.abs(b)))))
+            return self._close(a, b, tol)
 
         for bi, b in enumerate(case['builds']):
             for ed in b['edits']:
@@ -894,21 +955,28 @@ class C08(PropCheck):
                                     % (where, c['kind'], shape, np.asarray(got).tolist(), np.shape(got), np.asarray(ref).tolist(), np.shape(ref)))
                 if c['kind'] != 'grad':
                     log = c['kind'] == 'logpdf'
-                    with np.errstate(all='ignore'):
-                        exp = np.array([self._direct(cur, order, dict(zip(order, row)), log) for row in pts])
-                    exp = exp[0] if single else exp
+                    exp, exo = self._expected_rows(cur, order, pts, log)
+                    exp, exo = (exp[0], exo[0]) if single else (exp, exo)
                     if np.shape(got) != exp_shape:
                         problems.append('%s: %s of %d point(s) given with shape %r has shape %r, expected %r'
                                         % (where, c['kind'], n, shape, np.shape(got), exp_shape))
-                    elif not close(got, exp):
-                        problems.append('%s: %s %r != product/sum of the conditional densities %r at %r'
-                                        % (where, c['kind'], np.asarray(got).tolist(), np.asarray(exp).tolist(), pts.tolist()))
-                    if equivalent is not None:
-                        with np.errstate(all='ignore'):
-                            eq = getattr(equivalent, c['kind'])(make_input(list(shape), pts.reshape(-1).tolist(), c['container']))
-                        if not close(got, eq, tol=1e-12):
-                            problems.append('%s: %s %r differs from %r given by a ModelPrior of a freshly built equivalent model'
-                                            % (where, c['kind'], np.asarray(got).tolist(), np.asarray(eq).tolist()))
+                    else:
+                        okv, known = self._against_oracle(got, exp, exo)
+                        if not okv:
+                            problems.append('%s: %s %r != product/sum of the conditional densities %r at %r'
+                                            % (where, c['kind'], np.asarray(got).tolist(), np.asarray(exp).tolist(), pts.tolist()))
+                        if known:
+                            problems.append((KNOWN_ZTI, '%s: %s %r at %r: nan where one conditional density is zero and another is +inf; '
+                                             'the property asks for %r' % (where, c['kind'], np.asarray(got).tolist(), pts.tolist(), np.asarray(exp).tolist())))
+                        if equivalent is not None:
+                            with np.errstate(all='ignore'):
+                                eq = getattr(equivalent, c['kind'])(make_input(list(shape), pts.reshape(-1).tolist(), c['container']))
+                            # positions of the known shape are nan on both sides and reported above; everywhere else nan never agrees
+                            both = np.asarray(exo, dtype=bool) & np.isnan(np.asarray(got, dtype=float))
+                            if np.shape(eq) != np.shape(got) or not self._against_oracle(np.where(both, 0.0, got), np.where(both, 0.0, eq), False, tol=1e-12)[0] \
+                                    or np.any(both & ~np.isnan(np.asarray(eq, dtype=float))):
+                                problems.append('%s: %s %r differs from %r given by a ModelPrior of a freshly built equivalent model'
+                                                % (where, c['kind'], np.asarray(got).tolist(), np.asarray(eq).tolist()))
                 if c['mutate_result'] and isinstance(got, np.ndarray) and got.ndim > 0:
                     got[...] = -12345.0              # the caller reuses the array it was given
                 if c['scribble_input'] and isinstance(x, np.ndarray) and x.ndim > 0:
@@ -927,7 +995,13 @@ class C08(PropCheck):
 
     def py_check(self, case, out):
         clause = {'numhist': 'history-numeric', 'history': 'history-symbolic'}.get(case['mode'], 'numeric')
-        return [(clause, p) for p in out.get('problems', [])[:3]]
+        ps = out.get('problems', [])
+        known = [p for p in ps if isinstance(p, tuple)]          # (finding key, message): only the exact shape of a known finding
+        real = [p for p in ps if not isinstance(p, tuple)]
+        return [(clause, p) for p in real[:3]] + [(k, m) for k, m in known[:1]]
+
+    def classify(self, case, out, clause):
+        return KNOWN_ZTI if clause == KNOWN_ZTI else None
 
     def nontrivial(self, case, out):
         if case['mode'] == 'symbolic':
